@@ -297,7 +297,7 @@ def run(c):
         'the stand-in for the oracle outside the model in extract/lua/driver.ml: OCaml floats with %.16g / strtod for C++ iostream doubles, a literal evaluator for luaEval; the generator\'s rendering of values as Lua source text (tools/props/c16.py: literal)',
     ]
     c.assumptions += [
-        'PARTIAL BY NATURE: the Lua VM is outside the model. The theorems cover the marshalling logic of getLuaAsData/getDataAsLua/setEvent/assign/init for all values (induction on the value type), under Section hypotheses that are NOT proved: (H_true/H_false) luaEval of the atoms true/false yields the booleans; (H_flt) a double classified stable prints with precision 16 to a text that getDataAsLua reads back (strTo<double>, strTo<long> or the Lua numeral reader) to a number that prints to the same text; (H_int) a long of magnitude <= 2^53 converted to double prints as its decimal text; for the clause on paths below a system variable, that the chunk "<var>.<field>= __tmpAssign" stores the field.',
+        'PARTIAL BY NATURE: the Lua VM is outside the model. The theorems cover the marshalling logic of getLuaAsData/getDataAsLua/setEvent/assign/init for all values (induction on the value type), under Section hypotheses that are NOT proved: (H_true/H_false) luaEval of the atoms true/false yields the booleans; (H_flt) a double classified stable prints with precision 16 to a text that getDataAsLua reads back (strTo<double>, strTo<long> or the Lua numeral reader) to a number that prints to the same text; (H_int) a long of magnitude <= 2^53 converted to double prints as its decimal text; (the hypotheses on doubles are stated for both versions of isNumeric, pinned and repaired: they agree on every text a double prints to, which is likewise not proved); for the clause on paths below a system variable, that the chunk "<var>.<field>= __tmpAssign" stores the field.',
         'Covered by the correspondence only (not by any theorem): that Lua tables, luabridge (LuaRef::append = luaL_ref, cast<>, Iterator), std::map ordering and the C++ iostream conversions behave as the model says; that evaluating the generated Lua literal yields the value it was rendered from; that the interpreter routes <param>, namelist, <assign>, <data>, <donedata>, event payload through evalAsData / assign / init / setEvent as the composition run_ways assumes; the stand-in oracle itself (number texts are compared with the implementation by lua-num probes).',
         'Lua tables whose keys are neither integers nor strings (floats with a fraction, booleans) and functions/userdata/threads are outside the model and the generators (the implementation aborts the process on the first two: see the report).',
         'Event payloads with DOM nodes or binary blobs are outside the model.',
